@@ -12,8 +12,11 @@ CompS(S) == {3 - b : b \in S}
 RC(s) == [i \in 1..Len(s) |-> 3 - s[Len(s) + 1 - i]]
 Rev(s) == [i \in 1..Len(s) |-> s[Len(s) + 1 - i]]
 
-\* the window of n letters starting at (1-based) position i
-Sub(s, i, n) == [j \in 1..n |-> s[i + j - 1]]
+\* the window of n letters starting at (1-based) position i; total: positions outside the string read as 9 (no base), so
+\* that an observation that points outside the string is rejected by comparison instead of stopping the evaluation
+Sub(s, i, n) == [j \in 1..n |-> IF (i + j - 1) \in DOMAIN s THEN s[i + j - 1] ELSE 9]
+\* the segment s[a..b] (1-based, inclusive), total in the same way (= SubSeq(s, a, b) when in range)
+Seg(s, a, b) == Sub(s, a, IF b >= a THEN b - a + 1 ELSE 0)
 
 Min2(a, b) == IF a < b THEN a ELSE b
 Max2(a, b) == IF a > b THEN a ELSE b
